@@ -2409,6 +2409,27 @@ impl ModuleGraph {
     for (specifier, module_entry) in entries {
       match module_entry {
         ModuleEntryRef::Module(module) => {
+          // a walk does not visit source maps, but a build of these roots
+          // would have loaded the module's source map entry
+          if let Module::Js(js_module) = module
+            && let Some(mut url) = js_module
+              .maybe_source_map_dependency
+              .as_ref()
+              .and_then(|d| d.dependency.maybe_specifier())
+          {
+            let mut seen = HashSet::new();
+            while seen.insert(url) {
+              if let Some(slot) = self.module_slots.get(url) {
+                new_graph.module_slots.insert(url.clone(), slot.clone());
+                break;
+              }
+              let Some(to) = self.redirects.get(url) else {
+                break;
+              };
+              new_graph.redirects.insert(url.clone(), to.clone());
+              url = to;
+            }
+          }
           new_graph
             .module_slots
             .insert(specifier.clone(), ModuleSlot::Module(module.clone()));
